@@ -258,9 +258,15 @@ func runSecure(rec *Rec, sc *SecureScenario, n int, rnd *rand.Rand) {
 			rec.Emit("CallHang")
 		}
 	} else {
+		before := rec.Count()
 		pst := cs.Push(route, arg, settings...)
 		rec.Emit("PushRet", "code", pst.Code())
-		time.Sleep(3 * time.Millisecond)
+		// the push is handled asynchronously: wait for its handler (bounded: with another key it never runs)
+		wait := 200 * time.Millisecond
+		if !sc.Invoked {
+			wait = 15 * time.Millisecond
+		}
+		WaitUntil(wait, func() bool { return rec.Count() >= before+2 })
 	}
 	time.Sleep(time.Millisecond)
 	var out, inb []byte
